@@ -67,7 +67,7 @@ fn phdr(p_type: u32, p_offset: u64, p_vaddr: u64) -> Vec<u8> {
 
 /// craft linker data in a two-page pattern region that is followed by a PROT_NONE page
 pub fn case_dso(id: &str, r: &mut Rng) -> String {
-    let scen = *r.pick(&["good", "cyclic", "selfloop", "hugephnum", "mulphnum", "vaddr-underflow", "dyn-overflow", "dyn-short", "rdebug-unreadable", "linkmap-short", "name-unreadable", "no-null", "bigphnum", "rho", "tail-selfloop", "rho-long"]);
+    let scen = *r.pick(&["good", "cyclic", "selfloop", "hugephnum", "mulphnum", "vaddr-underflow", "dyn-overflow", "dyn-short", "rdebug-unreadable", "linkmap-short", "name-unreadable", "no-null", "bigphnum", "rho", "tail-selfloop", "rho-long", "no-null-odd"]);
     // (bigphnum: a program-header count beyond what an ELF header can announce, over a region large enough for all of
     // those headers to be read)
     let t = match Target::spawn(&["-r".to_string(), if scen == "bigphnum" { "4194304:r".to_string() } else { "8192:n".to_string() }]) {
@@ -106,6 +106,8 @@ pub fn case_dso(id: &str, r: &mut Rng) -> String {
         "linkmap-short" => maps[0].3 = end - 8,
         "name-unreadable" => maps[0].1 = end - 3,
         "no-null" => { dynamic.pop(); dyn_vaddr = 8192 - 32; }
+        // … a table that is 8- but not 16-byte aligned: the read of the entry after the last one is *short* (8 bytes)
+        "no-null-odd" => { dynamic.pop(); dyn_vaddr = 8192 - 40; }
         _ => {}
     }
     let mut ph = phdr(1, 0, load_vaddr);
